@@ -8,8 +8,52 @@ package snaps
 
 import (
 	"fmt"
+	"os"
+	"path/filepath"
 	"strings"
 )
+
+// The probe calls snapshotPath the way the exported functions do today (two frames below the user's call, the
+// standalone name carrying a %d). Whether that is still how the library calls it is CHECKED, once per process: a real
+// MatchSnapshot / MatchStandaloneSnapshot made from the util test file (a leaf whose attribution changes with the
+// frame distance) into the sandbox must create exactly the file the probe names. If not, the probe says nothing about
+// the library (probe=0): the oracle refrains and the correspondence reports that the tie is gone.
+var vProbeState = 0 // 0 unknown, 1 calibrated, 2 off
+
+func vProbeCalibrated(r *vRunner) bool {
+	if vProbeState != 0 {
+		return vProbeState == 1
+	}
+	vProbeState = 2
+	dir := filepath.Join(r.sb.root, "calib")
+	c := WithConfig(Dir(dir), Update(true))
+	savedEv, savedCI := testEvents, isCI
+	testEvents = newTestEvents()
+	isCI = false
+	ok := true
+	for _, standalone := range []bool{false, true} {
+		os.RemoveAll(dir)
+		t := &vT{name: "TestCalib"}
+		vLeafUtilReal(c, t, standalone)
+		for _, f := range t.cleanups {
+			f()
+		}
+		p, _, _ := vLeafUtil(c, "TestCalib", standalone)
+		if standalone {
+			p = strings.Replace(p, "%d", "1", 1)
+		}
+		ents, _ := os.ReadDir(dir)
+		if len(ents) != 1 || filepath.Join(dir, ents[0].Name()) != p {
+			ok = false
+		}
+	}
+	os.RemoveAll(dir)
+	testEvents, isCI = savedEv, savedCI
+	if ok {
+		vProbeState = 1
+	}
+	return ok
+}
 
 //go:noinline
 func vHelperOtherTestFile(f func()) { f() }
@@ -88,6 +132,6 @@ func init() {
 		}
 		fmt.Fprintf(r.w, "op snappath fn=%s dir=%s ext=%s test=%s standalone=%s trim=%s frames=%s\n",
 			fn, dir, ext, vhex([]byte(name)), vb(standalone), vb(o.Sort), strings.Join(fs, ","))
-		fmt.Fprintf(r.w, "snappath %d path=%s\n", r.idx, vhex([]byte(p)))
+		fmt.Fprintf(r.w, "snappath %d probe=%s path=%s\n", r.idx, vb(vProbeCalibrated(r)), vhex([]byte(p)))
 	}
 }
